@@ -182,6 +182,14 @@ Proof.
   rewrite (calc_depth_nonroot _ Hr), (count_join c nm Hc Hn). reflexivity.
 Qed.
 
+(* what the generated depth computations and the report gate mean (proved by arithmetic, see gate_dir_sat below) *)
+Lemma base_depth_of_spec rd c : base_depth_of rd c = if rd =? 0 then c else rd.
+Proof. unfold base_depth_of. destruct (rd =? 0) eqn:E; cbn; try reflexivity; lia. Qed.
+Lemma depth_of_spec c b : depth_of c b = c - b + 1.
+Proof. unfold depth_of. lia. Qed.
+Lemma gate_report_spec mn d : gate_report mn d = (mn =? 0) || (mn <=? d).
+Proof. unfold gate_report. lia. Qed.
+
 Definition depth_inv (canon : str) (rd d : N) : Prop :=
   canon_ok canon /\
   base_depth_of rd (calc_depth canon) <> 0 /\
@@ -191,18 +199,18 @@ Definition depth_inv (canon : str) (rd d : N) : Prop :=
 Lemma depth_inv_root c : canon_ok c -> depth_inv c 0 1.
 Proof.
   intros Hc. pose proof (calc_depth_pos c) as Hp.
-  unfold depth_inv, base_depth_of, depth_of. rewrite N.eqb_refl. split; [exact Hc|]. repeat split; lia.
+  unfold depth_inv. rewrite ?base_depth_of_spec, ?depth_of_spec, ?N.eqb_refl. split; [exact Hc|]. repeat split; lia.
 Qed.
 
 Lemma base_depth_nz b x : b <> 0 -> base_depth_of b x = b.
-Proof. intros H. unfold base_depth_of. destruct (N.eqb_spec b 0); [contradiction|reflexivity]. Qed.
+Proof. intros H. rewrite base_depth_of_spec. destruct (N.eqb_spec b 0); [contradiction|reflexivity]. Qed.
 
 Lemma depth_inv_step c rd d nm : depth_inv c rd d -> name_okb nm = true ->
   depth_inv (join_path c nm) (base_depth_of rd (calc_depth c)) (d + 1).
 Proof.
   intros [H1 [H2 [H3 H4]]] Hn.
   unfold depth_inv. rewrite (calc_depth_join c nm H1 Hn), (base_depth_nz _ _ H2).
-  split; [now apply canon_ok_join|]. repeat split; [exact H2|lia|]. unfold depth_of in *. lia.
+  split; [now apply canon_ok_join|]. repeat split; [exact H2|lia|]. rewrite depth_of_spec in H4. rewrite depth_of_spec. lia.
 Qed.
 
 Lemma depth_inv_base c rd d : depth_inv c rd d ->
@@ -223,7 +231,7 @@ Proof.
     rewrite (IH (join_path c0 nm) (canon_ok_join c0 nm H0 Hnm)).
     rewrite (calc_depth_join c0 nm H0 Hnm). lia. }
   cbn zeta. rewrite (G c Hc). split; [reflexivity|].
-  unfold depth_of, base_depth_of. rewrite N.eqb_refl. lia.
+  rewrite depth_of_spec, base_depth_of_spec, N.eqb_refl. lia.
 Qed.
 
 (* ---------- the delta relation ---------- *)
@@ -238,10 +246,12 @@ Definition sat (s : wst) : bool := lim_on && (limit <=? found s).
 Definition take (s : wst) (R : list row) : list row :=
   if lim_on then firstn (N.to_nat (limit - found s)) R else R.
 
+(* The generated gate expressions are compared with the model's reading of them by arithmetic, not by conversion: a
+   re-spelling of the source condition that means the same (a negated test with `continue`, a helper method) still passes. *)
 Lemma gate_dir_sat s : gate_limit_dir buffered limit (found s) = sat s.
-Proof. reflexivity. Qed.
+Proof. unfold gate_limit_dir, sat, lim_on. destruct buffered; lia. Qed.
 Lemma gate_arc_sat s : gate_limit_arc buffered limit (found s) = sat s.
-Proof. reflexivity. Qed.
+Proof. unfold gate_limit_arc, sat, lim_on. destruct buffered; lia. Qed.
 
 Lemma take_nil s : take s [] = [].
 Proof. unfold take. destruct lim_on; [apply firstn_nil|reflexivity]. Qed.
@@ -479,12 +489,12 @@ Qed.
 
 Lemma in_window_gate mn mx d p k : mx = 0 \/ d <= mx -> in_window mn mx (d, p, k) = gate_report mn d.
 Proof.
-  intros H. unfold in_window, gate_report, e_depth. cbn [fst].
+  intros H. rewrite gate_report_spec. unfold in_window, e_depth. cbn [fst].
   replace ((mx =? 0) || (d <=? mx)) with true by (destruct H; lia). apply andb_true_r.
 Qed.
 
 Lemma gate_descend_eq mx d : gate_descend mx d = (mx =? 0) || (d <? mx).
-Proof. reflexivity. Qed.
+Proof. unfold gate_descend. lia. Qed.
 
 Lemma pre_node_S ign F mx d dir k :
   pre_node ign (S F) mx d dir k =
